@@ -547,6 +547,72 @@ R_CONTRACTS = [
 S_SELF = {"_transit_sender": "obj[Transit]", "_fd_to_send": "obj[File]", "_args": "obj[SArgs]", "_timing": "obj[Timing]"}
 SF_EXC = ["TransferError", "ValueError", "UnicodeDecodeError", "AssertionError"] + NET_EXC
 
+# ---- what the sender offers (Sender._build_offer) and the small plumbing functions
+WHAT = "realpath(pjoin(self._args.cwd, self._args.what))"
+BASE = "basename(normpath(pjoin(self._args.cwd, self._args.what)))"
+SO_SELF = {"_args": "obj[SArgs]", "_fs": "obj[GhostFS]"}
+BO_EXC = ["TransferError", "UnsendableFileError", "TypeError", "AssertionError", "OSError", "EOFError"]
+
+O_CONTRACTS = [
+    Contract(f"{SEND}:Sender._send_data", props=[PROP], params={"data": "json", "w": "obj[Wormhole]"}, self_fields=SO_SELF,
+             internal_ensures=[("sends-exactly-this-dict-once", "bcall_names() == ['send_message'] and "
+                                                                "bcall_arg('send_message', 0, 0) == json_bytes(data)")]),
+    Contract(f"{SEND}:Sender._handle_transit", props=[PROP], params={"receiver_transit": "json"},
+             self_fields={"_transit_sender": "obj[Transit]"}, raises={"AttributeError": None},
+             internal_ensures=[("hands-the-peers-hints-to-the-transit-object-and-nothing-else",
+                                "bcall_names() == ['add_connection_hints'] and "
+                                "implies(jhas(receiver_transit, 'hints-v1'), "
+                                "to_j(bcall_arg('add_connection_hints', 0, 0)) == jget(receiver_transit, 'hints-v1'))")],
+             ensures_raise={"AttributeError": [("nothing-done", "bcall_names() == []")]}),
+    Contract(f"{SEND}:Sender._build_offer", props=[PROP], params={}, self_fields=SO_SELF, pre_hook=c05.bind_fs,
+             raises={e: None for e in BO_EXC}, modifies=[],
+             internal_ensures=[(n_, x_.replace("OFFER", "result[0]").replace("FD", "result[1]")) for n_, x_ in [
+                 ("exactly-one-kind-of-offer",
+                  "ite(jhas(OFFER, 'message'), 1, 0) + ite(jhas(OFFER, 'file'), 1, 0) + ite(jhas(OFFER, 'directory'), 1, 0) == 1"
+                  " and offer_keys(OFFER) == 1"),
+                 ("nothing-to-stream-exactly-for-a-text-offer", "(FD is None) == jhas(OFFER, 'message')"),
+                 # text: reproduced exactly - the message offered is the text the user gave
+                 ("text-offer-carries-the-users-text-unchanged",
+                  "implies(jhas(OFFER, 'message'), jget(OFFER, 'message') == to_j(users_text(self._args.text)))"),
+                 ("stdin-is-read-exactly-for-dash-and-the-prompt-only-without-text-and-file",
+                  "n_stdin() == ite(self._args.text is not None and self._args.text == '-', 1, 0) and n_typed() <= 1 and "
+                  "implies(n_typed() == 1, not self._args.what)"),
+                 ("text-is-never-dropped-in-favour-of-a-file",
+                  "implies(not jhas(OFFER, 'message'), self._args.text is None)"),
+                 # file: the size offered is the size of the very file that will be streamed, nothing read yet
+                 ("file-offer-names-the-basename-the-user-typed",
+                  "implies(jhas(OFFER, 'file'), jfield(OFFER, 'file', 'filename') == " + BASE + " and " + BASE + " != '')"),
+                 ("file-offer-size-is-the-size-of-the-file-that-is-opened",
+                  "implies(jhas(OFFER, 'file'), jfield(OFFER, 'file', 'filesize') == len(FD._content) and FD._read == b''"
+                  " and file_keys(OFFER, 'file') == 2)"),
+                 ("the-file-opened-for-reading-is-the-one-the-user-named-with-symlinks-resolved",
+                  "implies(jhas(OFFER, 'file'), FD.name == " + WHAT + " and FD.mode == 'rb' and FD._content == content_of(" + WHAT + ")"
+                  " and bcalls('open') == 1)"),
+                 ("only-the-named-path-is-opened-and-never-for-writing", "n_fs() == 0 and bcalls('open') <= 1"),
+                 # directory: the zip stream built here is what will be streamed, and its announced size is its length
+                 ("directory-offer-announces-the-length-of-the-zip-stream",
+                  "implies(jhas(OFFER, 'directory'), jfield(OFFER, 'directory', 'zipsize') == len(FD._stream) and "
+                  "jfield(OFFER, 'directory', 'dirname') == " + BASE + " and jfield(OFFER, 'directory', 'mode') == 'zipfile/deflated'"
+                  " and is_zipstream(FD))"),
+                 ("the-tree-walked-is-the-directory-the-user-named",
+                  "implies(jhas(OFFER, 'directory'), bcalls('walk') == 1 and bcall_arg('walk', 0, 0) == " + WHAT + ")"),
+             ]],
+             loops={0: {"header": "for filepath in walk(what, preserve_empty=True, followlinks=True)",
+                        "modifies": [("local", "zs", "_stream"), ("local", "zs", "_entries")],
+                        "invariant": ["n_fs() == 0"],
+                        "body_ensures": [
+                            "iter_bcalls('add_path') <= 1 and iter_bcalls('open') == 0",
+                            # every walked path goes into the archive under its name relative to the directory sent ...
+                            "implies(iter_bcalls('add_path') == 1, iter_add_arg(0) == at_iter(_iter[_i]))",
+                            "implies(iter_bcalls('add_path') == 1, iter_add_kw('arcname') == relpath(at_iter(_iter[_i]), " + WHAT + "))",
+                            "implies(iter_bcalls('add_path') == 1, iter_add_kw('recurse') == False)",
+                            # ... and is only left out when it is unreadable and the user allowed that
+                            "implies(iter_bcalls('add_path') == 0, self._args.ignore_unsendable_files)"]}},
+             ensures_raise={e: [("nothing-written", "n_fs() == 0")] for e in BO_EXC},
+             note="text / file / directory branches and the block-device branch (a file offer whose size is the seek-to-end "
+                  "position).  File contents are a ghost function of the path (content_of); os.stat(p).st_size is its length"),
+]
+
 S_CONTRACTS = [
     Contract(f"{SEND}:Sender._send_file", props=[PROP], params={}, self_fields=S_SELF,
              requires=["self._fd_to_send._read == b''"], raises={e: None for e in SF_EXC},
@@ -638,6 +704,174 @@ def regf_r_text():
     return reg
 
 
+def install_offer_models(reg):
+    """library models for Sender._build_offer: POSIX path functions and the ghost filesystem of C05, file contents as a
+    ghost function of the path, zipstream.ng as a boundary object"""
+    from pyvc import models as M
+    c05.install_models(reg)
+    c05.install_spec(reg)
+    em, sf = reg.ext_models, reg.spec_funcs
+    reg.class_fields["GhostFS"] = {"exists": "set[str]", "isdir": "set[str]", "isfile": "set[str]"}
+    reg.exc_bases.setdefault("ZipStream", "zipstream.ng.ZipStream")
+    for name in ("normpath", "realpath"):
+        em["os.path." + name] = (lambda nm: lambda it, args, kw: VStr(uf("posix_" + nm, StringS, StringS)(c05.path_arg(it, args[0]).z), "str"))(name)
+        sf[name] = (lambda nm: lambda it, p_: VStr(uf("posix_" + nm, StringS, StringS)(sview(p_).z), "str"))(name)
+    relp = lambda a, b: uf("posix_relpath", StringS, StringS, StringS)(a, b)     # noqa: E731
+    em["os.path.relpath"] = lambda it, args, kw: VStr(relp(c05.path_arg(it, args[0]).z, c05.path_arg(it, args[1]).z), "str")
+    sf["relpath"] = lambda it, a, b: VStr(relp(sview(a).z, sview(b).z), "str")
+    content = uf("fs_content", StringS, StringS)
+    sf["content_of"] = lambda it, p_: VStr(content(sview(p_).z), "bytes")
+
+    def os_stat(it, args, kw):
+        p_ = c05.path_arg(it, args[0])
+        c05.may_fail(it, "os.stat")
+        return VObj("stat_result", {"st_size": VInt(z3.Length(content(p_.z))), "st_mode": it.fresh("int", "st_mode")})
+
+    em["os.stat"] = os_stat
+    em["stat.S_ISBLK"] = lambda it, args, kw: it.fresh("bool", "is_block_device")
+    c05_open = em["builtins.open"]
+
+    def b_open(it, args, kw):
+        f = c05_open(it, args, kw)
+        mode = it.concrete(f.fields["mode"])
+        if not any(ch in mode for ch in "wax+"):
+            it.ctx.event("bcall", "fs", "open", [f.fields["name"], f.fields["mode"]], {})
+            f.fields["_content"] = VStr(content(f.fields["name"].z), "bytes")
+            f.fields["_read"] = VStr(b"")
+        return f
+
+    em["builtins.open"] = b_open
+
+    def file_seek(it, recv, meth, args, kwargs, fr):
+        off = it.force(args[0])
+        whence = it.concrete(it.force(args[1])) if len(args) > 1 else 0
+        if whence == 2 and it.concrete(off) == 0:
+            return VInt(z3.Length(recv.fields["_content"].z))
+        return off
+
+    reg.boundary["File.seek"] = file_seek
+
+    def stdin_read(it, args, kw):
+        t = it.fresh("str", "stdin_text")
+        it.ctx.event("stdin-read", t)
+        return t
+
+    em["sys.stdin.read"] = stdin_read
+    evs = lambda it, kind: [e[1][0] for e in it.ctx.trace if e[0] == kind]     # noqa: E731
+    sf["n_stdin"] = lambda it: VInt(len(evs(it, "stdin-read")))
+    sf["stdin_text"] = lambda it, k: evs(it, "stdin-read")[it.concrete(k)] if it.concrete(k) < len(evs(it, "stdin-read")) else NONE
+    sf["n_typed"] = lambda it: VInt(len(evs(it, "input-line")))
+    sf["typed"] = lambda it, k: evs(it, "input-line")[it.concrete(k)] if it.concrete(k) < len(evs(it, "input-line")) else NONE
+
+    # the text the user gave: what was typed at the prompt, else what was read from stdin, else --text
+    sf["users_text"] = lambda it, opt: (evs(it, "input-line") or evs(it, "stdin-read") or [it.force(opt)])[0]
+
+    # ---- zipstream.ng
+    reg.class_fields["ZipStream"] = {"_stream": "bytes", "_entries": "seq[json]"}
+
+    def new_zipstream(it, args, kw):
+        it.ctx.event("bcall", "zipstream", "ZipStream", list(args), dict(kw))
+        return it.fresh("obj[ZipStream]", "zs")
+
+    em["zipstream.ng.ZipStream"] = new_zipstream
+
+    def zs_walk(it, args, kw):
+        it.ctx.event("bcall", "zipstream", "walk", [it.force(a) for a in args], dict(kw))
+        return it.fresh("seq[str]", "walked")
+
+    em["zipstream.ng.walk"] = zs_walk
+
+    def zs_add_path(it, recv, meth, args, kwargs, fr):
+        """stats the path (may fail with OSError); what the stream will be changes with every member added"""
+        c05.may_fail(it, "zs.add_path")
+        it.ctx.event("bcall", "ZipStream", "add_path", [it.force(a) for a in args], {k: it.force(v) for k, v in kwargs.items()})
+        recv.fields["_stream"] = it.fresh("bytes", "zip_stream")
+        recv.fields["_entries"] = it.fresh("seq[json]", "zip_entries")
+        return NONE
+
+    reg.boundary["ZipStream.add_path"] = zs_add_path
+
+    def zs_info_list(it, recv, meth, args, kwargs, fr):
+        r = recv.fields["_entries"]
+        r = VSeq(r.z, r.elem)
+        r.zs_entries = True
+        return r
+
+    reg.boundary["ZipStream.info_list"] = zs_info_list
+
+    def b_len(it, args, kw):
+        v = it.force(args[0])
+        if isinstance(v, VObj) and v.cls == "ZipStream":        # sized ZipStream: len() is the size of the finished stream
+            return VInt(z3.Length(v.fields["_stream"].z))
+        return M.b_len(it, args, kw, None)
+
+    em["builtins.len"] = b_len
+
+    def entries_comprehension(it, e, g, coll, fr):
+        """[x["size"] for x in zs.info_list() if not x["is_dir"]] and sum() of it: NOT under contract - some list of ints
+        / some int (numfiles and numbytes of a directory offer are informational; nothing is claimed about them)"""
+        from pyvc.interp import VSeqResult
+        if isinstance(coll, VSeq) and str(coll.elem) == str(parse_type("json")) and getattr(coll, "zs_entries", False):
+            return VSeqResult(z3.Const(it.ctx.namer("filesizes"), z3.SeqSort(IntS)), parse_type("int"))
+        return None
+
+    em["comprehension"] = entries_comprehension
+
+    def b_sum(it, args, kw):
+        v = it.force(args[0])
+        if isinstance(v, VSeq):
+            return it.fresh("int", "sum")
+        return M.b_sum(it, args, kw, None)
+
+    em["builtins.sum"] = b_sum
+    em["os.access"] = lambda it, args, kw: it.fresh("bool", "readable")
+    em["os.strerror"] = lambda it, args, kw: it.fresh("str", "strerror")
+    reg.ext_consts["os.R_OK"] = 4
+    reg.ext_consts["errno.EACCES"] = 13
+    for e in ("OSError", "PermissionError"):
+        em[f"attr:{e}.strerror"] = lambda it, o: it.fresh("str", "strerror")
+    sf["is_zipstream"] = lambda it, v: VBool(isinstance(it.force(v), VObj) and it.force(v).cls == "ZipStream")
+    sf["to_j"] = lambda it, v: VJson(to_json(it.force(v)))
+
+    asj = lambda it, v: v if isinstance(v, VJson) else VJson(to_json(it.force(v)))      # noqa: E731
+    for nm in ("jhas", "jget", "jfield"):
+        sf[nm] = (lambda f: lambda it, d, *ks: f(it, asj(it, d), *ks))(sf[nm])
+
+    def nkeys(it, d, *path):
+        """number of keys of a dict the function built itself (concrete keys)"""
+        d = it.force(d)
+        for k in path:
+            d = it.force(d.d[it.concrete(k)]) if isinstance(d, VDict) and it.concrete(k) in d.d else None
+        return VInt(len(d.d) if isinstance(d, VDict) else -1)
+
+    sf["offer_keys"] = nkeys
+    sf["file_keys"] = nkeys
+
+    def iter_evs(it, name):
+        tr = it.ctx.trace
+        start = max([k for k, e in enumerate(tr) if e[0] == "loop-body-start"] + [-1])
+        name = name if isinstance(name, str) else it.concrete(name)
+        return [e[1] for e in tr[start + 1:] if e[0] == "bcall" and e[1][1] == name]
+
+    sf["iter_bcalls"] = lambda it, name: VInt(len(iter_evs(it, name)))
+    sf["iter_add_arg"] = lambda it, i: iter_evs(it, "add_path")[0][2][it.concrete(i)] if iter_evs(it, "add_path") else NONE
+    sf["iter_add_kw"] = lambda it, k: iter_evs(it, "add_path")[0][3].get(it.concrete(k), NONE) if iter_evs(it, "add_path") else NONE
+
+
+def regf_o():
+    reg = make_registry()
+    install_trace_funcs(reg)
+    register_classes(reg, ["wormhole/errors.py", SEND])
+    install_common(reg)
+    install_offer_models(reg)
+    reg.class_fields["SArgs"] = {"text": "opt[str]", "what": "opt[str]", "cwd": "str", "stderr": "obj[Stream]",
+                                 "ignore_unsendable_files": "bool", "hide_progress": "bool"}
+    reg.class_fields["File"] = {"name": "str", "mode": "str", "_read": "bytes", "_content": "bytes"}
+    for c in UTIL_ASSUMED + O_CONTRACTS:
+        reg.contracts[c.target] = c
+    return reg
+
+
 def regf_s():
     reg = make_registry()
     install_trace_funcs(reg)
@@ -679,6 +913,7 @@ def tasks():
         inl = c.target.endswith(("connectConsumer", "recordReceived"))
         out.append(ContractTask(c, regf_p_all if c.target.endswith("writeToFile") else regf_p_w2c if inl else regf_p))
     out += [ContractTask(c, regf_r_text if c.target.endswith("Receiver._handle_text") else regf_r) for c in R_CONTRACTS]
+    out += [ContractTask(c, regf_o) for c in O_CONTRACTS]
     out += [ContractTask(c, regf_s) for c in S_CONTRACTS]
     out.append(FuncTask("stable-fields", stable_fields_task, True, "frame"))
     # byte-exactness also rests on (a) the download file being opened fresh (truncating "wb") at destination+".tmp"
@@ -692,7 +927,7 @@ def tasks():
     return out
 
 
-CONTRACTS = P_CONTRACTS + R_CONTRACTS + S_CONTRACTS
+CONTRACTS = P_CONTRACTS + R_CONTRACTS + O_CONTRACTS + S_CONTRACTS
 TRUSTED = [
     "z3/cvc5", "pyvc semantics of the Python subset (DESIGN 2.2)",
     "inlineCallbacks (props/deferred.py): a generator is resumed exactly once per fired Deferred with its result, or the "
